@@ -712,5 +712,34 @@ def s7_functions(ctx):
                     ctx.ask(f"c16.handler\t{rule}\t{L.shape_w(r.shape)}", ["ok", L.cls_name(r) if kind != "S" or type(r) in (unyt.unyt_array, unyt.unyt_quantity) else L.cls_name(r), L.shape_w(r.shape)], f"{expr_} on {kind}{shp}")
 
 
+# ==========================================================================================
+# S8 — the witnesses of the `…_counterexample` theorems, replayed on the real code
+
+WITNESSES = [
+    ("C16_getitem_counterexample", "r = unyt_quantity(3.0, 'm')[None][[0, 0]]", "unyt_quantity", (2,)),
+    ("C16_getitem_counterexample(step 1)", "r = unyt_quantity(3.0, 'm')[None]", "unyt_quantity", (1,)),
+    ("C16_view_counterexample(squeeze)", "r = unyt_array([1.0], 'm').squeeze()", "unyt_array", ()),
+    ("C16_view_counterexample(reshape)", "r = unyt_array([1.0], 'm').reshape(())", "unyt_array", ()),
+    ("C16_view_counterexample(repeat)", "r = unyt_quantity(3.0, 'm').repeat(2)", "unyt_quantity", (2,)),
+    ("multiOut_counterexample(modf)", "r = np.modf(unyt_array(3.5, 'm'))[0]", "unyt_array", ()),
+    ("multiOut_counterexample(divmod size 1)", "r = np.divmod(unyt_quantity(7.0, 'm'), np.array([2.0]))[0]", "unyt_quantity", (1,)),
+    ("multiOut_counterexample(divmod refusal)", "r = np.divmod(unyt_quantity(7.0, 'm'), np.array([2.0, 3.0]))", "RuntimeError", None),
+    ("C16_handlers_counterexample(clip)", "q = unyt_quantity(3.0, 'm'); r = np.clip(q, 0 * q, q, out=unyt_array(0.0, 'm'))", "unyt_array", ()),
+    ("C16_handlers_counterexample(around)", "r = np.around(unyt_quantity(3.2, 'm'), out=unyt_array(0.0, 'm'))", "unyt_array", ()),
+    ("C16_handlers_counterexample(choose)", "q = unyt_quantity(3.0, 'm'); r = np.choose(0, [q, q], out=unyt_array(0.0, 'm'))", "unyt_array", ()),
+]
+
+
 def s8_witnesses(ctx):
-    pass
+    chk = ctx.chk
+    for thm, code, want_cls, want_shape in WITNESSES:
+        env = {}
+        st, r = outcome(lambda: exec(L.SETUP + code + "\n", env))
+        chk.case(("witness", thm))
+        chk.count("S8:witness")
+        if st == "err":
+            got = (core.exc_name(r), None)
+        else:
+            got = (L.cls_name(env["r"]), tuple(env["r"].shape))
+        if got != (want_cls, want_shape):
+            chk.disagree("witness", f"{thm}: `{code}` gives {got}, the counterexample theorem says {(want_cls, want_shape)} — the excluded region changed (was a fix applied? then drop the exclusion)")
